@@ -170,11 +170,11 @@ theorem flowTxt_head : ∀ (v : SVal), inFlowFrag v = true →
   | .newtypeStruct v, hv => by simp only [inFlowFrag] at hv; simpa [flowTxt] using flowTxt_head v hv
   | .seq xs, _ => ⟨'[', _, rfl, Or.inr (Or.inl rfl)⟩
   | .tuple xs, _ => ⟨'[', _, rfl, Or.inr (Or.inl rfl)⟩
+  | .tupleStruct xs, _ => ⟨'[', _, rfl, Or.inr (Or.inl rfl)⟩
   | .map _ es, _ => ⟨'{', _, rfl, Or.inr (Or.inr rfl)⟩
-  | .newtypeVariant _ _, hv => by simp [inFlowFrag] at hv
-  | .tupleStruct _, hv => by simp [inFlowFrag] at hv
-  | .tupleVariant _ _, hv => by simp [inFlowFrag] at hv
-  | .structVariant _ _, hv => by simp [inFlowFrag] at hv
+  | .newtypeVariant _ _, _ => ⟨'{', _, rfl, Or.inr (Or.inr rfl)⟩
+  | .tupleVariant _ _, _ => ⟨'{', _, rfl, Or.inr (Or.inr rfl)⟩
+  | .structVariant _ _, _ => ⟨'{', _, rfl, Or.inr (Or.inr rfl)⟩
   | .flowSeq _, hv => by simp [inFlowFrag] at hv
   | .flowMap _, hv => by simp [inFlowFrag] at hv
   | .commented _ _, hv => by simp [inFlowFrag] at hv
@@ -238,6 +238,104 @@ theorem hasDupKey_erase_flow : ∀ (es : List (SVal × SVal)), inFlowFragEntries
         · exact ih hv'.2 hn'.2 e he
     exact this es hv.2 hn.1 e he
 
+/-- the reader on a flow text: `txt` (after blanks) reads as `p`, whatever follows -/
+def ReadsFlow (txt : List Char) (p : PVal) : Prop :=
+  ∀ (fuel k : Nat) (rest : List Char), fuel ≥ txt.length + 1 → FlowRest rest →
+    flowNode fuel (spaces k ++ txt ++ rest) = some (p, rest)
+
+/-- first character of a flow text: a token character or an opening bracket -/
+def FlowHead (txt : List Char) : Prop := ∃ c cs, txt = c :: cs ∧ (isTokChar c = true ∨ c = '[' ∨ c = '{')
+
+/-- a flow sequence, given the reader on its items -/
+theorem reads_flow_seq {xs : List SVal} (hv : inFlowFragList xs = true)
+    (hitems : xs ≠ [] → ∀ (fuel k : Nat) (rest : List Char), fuel ≥ (flowItems xs).length + 2 →
+      flowSeqItems fuel (spaces k ++ flowItems xs ++ ']' :: rest) = some (eraseList xs, rest)) :
+    ReadsFlow ('[' :: flowItems xs ++ [']']) (.seq (eraseList xs)) := by
+  intro fuel k rest hf hr
+  obtain ⟨f', rfl⟩ : ∃ f', fuel = f' + 1 := ⟨fuel - 1, by omega⟩
+  simp only [List.cons_append, List.append_assoc, List.singleton_append] at hf ⊢
+  rw [flowNode_open_seq]
+  cases xs with
+  | nil => simp [flowItems, dropSpaces, eraseList]
+  | cons x xs' =>
+    simp only [inFlowFragList, Bool.and_eq_true] at hv
+    obtain ⟨c, cs, hc, hcc⟩ := flowTxt_head x hv.1
+    have hi := hitems (by simp) f' 0 rest
+      (by simp only [flowItems, List.length_append, List.length_cons] at hf ⊢; omega)
+    simp only [flowItems, spaces, List.replicate_zero, List.nil_append, List.append_assoc] at hi ⊢
+    have hne : c ≠ ' ' ∧ c ≠ ']' := by
+      rcases hcc with h | rfl | rfl
+      · exact ⟨fun e => by rw [e] at h; exact absurd h (by decide), fun e => by rw [e] at h; exact absurd h (by decide)⟩
+      · exact ⟨by decide, by decide⟩
+      · exact ⟨by decide, by decide⟩
+    rw [hc] at hi ⊢
+    simp only [List.cons_append, dropSpaces, List.dropWhile_cons, beq_iff_eq, hne.1, if_false] at hi ⊢
+    split
+    · rename_i he; simp only [List.cons.injEq] at he; exact absurd he.1 hne.2
+    · rw [hi]; rfl
+
+/-- a flow mapping, given the reader on its entries -/
+theorem reads_flow_map {es : List (SVal × SVal)} (hv : inFlowFragEntries es = true) (hn : (keysOf es).Nodup)
+    (hentries : es ≠ [] → ∀ (fuel k : Nat) (rest : List Char), fuel ≥ (flowEntries es).length + 2 →
+      flowMapEntries fuel (spaces k ++ flowEntries es ++ '}' :: rest) = some (eraseEntries es, rest)) :
+    ReadsFlow ('{' :: flowEntries es ++ ['}']) (.map (eraseEntries es)) := by
+  intro fuel k rest hf hr
+  obtain ⟨f', rfl⟩ : ∃ f', fuel = f' + 1 := ⟨fuel - 1, by omega⟩
+  simp only [List.cons_append, List.append_assoc, List.singleton_append] at hf ⊢
+  rw [flowNode_open_map]
+  cases es with
+  | nil => simp [flowEntries, dropSpaces, eraseEntries]
+  | cons e es' =>
+    obtain ⟨kk, v⟩ := e
+    have hdup := hasDupKey_erase_flow ((kk, v) :: es') hv hn
+    have hent := hv
+    cases kk <;> simp only [inFlowFragEntries, Bool.and_eq_true, Bool.false_and, Bool.false_eq_true, false_and] at hent
+    rename_i kt
+    obtain ⟨c, cs, rfl, hca, _, _⟩ := safe_cons hent.1.1
+    have hi := hentries (by simp) f' 0 rest
+      (by simp only [flowEntries, keyOf, Option.getD_some, List.length_append, List.length_cons] at hf ⊢; omega)
+    simp only [flowEntries, keyOf, Option.getD_some, spaces, List.replicate_zero, List.nil_append, List.append_assoc,
+      List.cons_append] at hi ⊢
+    have hne : c ≠ ' ' ∧ c ≠ '}' :=
+      ⟨fun e => by rw [e] at hca; exact absurd hca (by decide), fun e => by rw [e] at hca; exact absurd hca (by decide)⟩
+    simp only [dropSpaces, List.dropWhile_cons, beq_iff_eq, hne.1, if_false]
+    split
+    · rename_i he; simp only [List.cons.injEq] at he; exact absurd he.1 hne.2
+    · rw [hi]; simp [hdup]
+
+/-- `{Variant: payload}` inside a flow collection reads as the one-entry mapping -/
+theorem reads_flow_variant {n : List Char} (hn : isSafeStr n = true) {txt : List Char} {p : PVal}
+    (hh : FlowHead txt) (hr : ReadsFlow txt p) : ReadsFlow (flowVariant n txt) (.map [(.str n, p)]) := by
+  intro fuel k rest hf hrest
+  obtain ⟨c, cs, hc, hcc⟩ := hh
+  have hne : c ≠ ' ' ∧ c ≠ ',' ∧ c ≠ ']' ∧ c ≠ '}' := by
+    rcases hcc with h | rfl | rfl
+    · exact ⟨fun e => by rw [e] at h; exact absurd h (by decide), fun e => by rw [e] at h; exact absurd h (by decide),
+        fun e => by rw [e] at h; exact absurd h (by decide), fun e => by rw [e] at h; exact absurd h (by decide)⟩
+    · exact ⟨by decide, by decide, by decide, by decide⟩
+    · exact ⟨by decide, by decide, by decide, by decide⟩
+  obtain ⟨c0, cs0, rfl, hca, _, _⟩ := safe_cons hn
+  have hne0 : c0 ≠ ' ' ∧ c0 ≠ '}' :=
+    ⟨fun e => by rw [e] at hca; exact absurd hca (by decide), fun e => by rw [e] at hca; exact absurd hca (by decide)⟩
+  simp only [flowVariant, List.length_cons, List.length_append, List.length_nil] at hf
+  obtain ⟨f', rfl⟩ : ∃ f', fuel = f' + 3 := ⟨fuel - 3, by omega⟩
+  have h1 := flowNode_key f' 0 (txt ++ '}' :: rest) hn
+  have h2 := hr f' 0 ('}' :: rest) (by omega) (Or.inr ⟨'}', rest, rfl, Or.inr (Or.inr rfl)⟩)
+  simp only [List.append_assoc, List.cons_append, List.singleton_append, List.nil_append,
+    spaces, List.replicate_zero] at h1 h2
+  simp only [flowVariant, List.append_assoc, List.cons_append, List.singleton_append, List.nil_append]
+  rw [show f' + 3 = (f' + 2) + 1 from rfl, flowNode_open_map]
+  simp only [dropSpaces, List.dropWhile_cons, beq_iff_eq, hne0.1, if_false]
+  split
+  · rename_i he; simp only [List.cons.injEq] at he; exact absurd he.1 hne0.2
+  · rw [show f' + 2 = f' + 1 + 1 from rfl, flowMapEntries]
+    have h1' : flowNode (f' + 1) (c0 :: (cs0 ++ ':' :: ' ' :: (txt ++ '}' :: rest))) =
+        some (PVal.str (c0 :: cs0), ':' :: ' ' :: (txt ++ '}' :: rest)) := by simpa using h1
+    rw [h1']
+    rw [hc] at h2 ⊢
+    simp only [List.cons_append] at h2 ⊢
+    simp [dropSpaces, flowValue, hne.1, hne.2.1, hne.2.2.1, hne.2.2.2, h2, hasDupKey]
+
 mutual
 theorem read_flow : ∀ (v : SVal), inFlowFrag v = true → ∀ (fuel k : Nat) (rest : List Char),
     fuel ≥ (flowTxt v).length + 1 → FlowRest rest →
@@ -272,78 +370,33 @@ theorem read_flow : ∀ (v : SVal), inFlowFrag v = true → ∀ (fuel k : Nat) (
     simpa [flowTxt, erase] using read_flow v hv fuel k rest (by simpa [flowTxt] using hf) hr
   | .seq xs, hv, fuel, k, rest, hf, hr => by
     simp only [inFlowFrag] at hv
-    obtain ⟨f', rfl⟩ : ∃ f', fuel = f' + 1 := ⟨fuel - 1, by omega⟩
-    simp only [flowTxt, erase, List.cons_append, List.append_assoc, List.singleton_append] at hf ⊢
-    rw [flowNode_open_seq]
-    cases xs with
-    | nil => simp [flowItems, dropSpaces, eraseList]
-    | cons x xs' =>
-      simp only [inFlowFragList, Bool.and_eq_true] at hv
-      obtain ⟨c, cs, hc, hcc⟩ := flowTxt_head x hv.1
-      have hi := read_flow_items (x :: xs') (by simp) (by simp [inFlowFragList, hv.1, hv.2]) f' 0 rest
-        (by simp only [flowItems, List.length_append, List.length_cons] at hf ⊢; omega)
-      simp only [flowItems, spaces, List.replicate_zero, List.nil_append, List.append_assoc] at hi ⊢
-      have hne : c ≠ ' ' ∧ c ≠ ']' := by
-        rcases hcc with h | rfl | rfl
-        · exact ⟨fun e => by rw [e] at h; exact absurd h (by decide), fun e => by rw [e] at h; exact absurd h (by decide)⟩
-        · exact ⟨by decide, by decide⟩
-        · exact ⟨by decide, by decide⟩
-      rw [hc] at hi ⊢
-      simp only [List.cons_append, dropSpaces, List.dropWhile_cons, beq_iff_eq, hne.1, if_false] at hi ⊢
-      split
-      · rename_i he; simp only [List.cons.injEq] at he; exact absurd he.1 hne.2
-      · rw [hi]; rfl
+    simpa [flowTxt, erase] using reads_flow_seq hv (fun hne => read_flow_items xs hne hv) fuel k rest
+      (by simpa [flowTxt] using hf) hr
   | .tuple xs, hv, fuel, k, rest, hf, hr => by
     simp only [inFlowFrag] at hv
-    obtain ⟨f', rfl⟩ : ∃ f', fuel = f' + 1 := ⟨fuel - 1, by omega⟩
-    simp only [flowTxt, erase, List.cons_append, List.append_assoc, List.singleton_append] at hf ⊢
-    rw [flowNode_open_seq]
-    cases xs with
-    | nil => simp [flowItems, dropSpaces, eraseList]
-    | cons x xs' =>
-      simp only [inFlowFragList, Bool.and_eq_true] at hv
-      obtain ⟨c, cs, hc, hcc⟩ := flowTxt_head x hv.1
-      have hi := read_flow_items (x :: xs') (by simp) (by simp [inFlowFragList, hv.1, hv.2]) f' 0 rest
-        (by simp only [flowItems, List.length_append, List.length_cons] at hf ⊢; omega)
-      simp only [flowItems, spaces, List.replicate_zero, List.nil_append, List.append_assoc] at hi ⊢
-      have hne : c ≠ ' ' ∧ c ≠ ']' := by
-        rcases hcc with h | rfl | rfl
-        · exact ⟨fun e => by rw [e] at h; exact absurd h (by decide), fun e => by rw [e] at h; exact absurd h (by decide)⟩
-        · exact ⟨by decide, by decide⟩
-        · exact ⟨by decide, by decide⟩
-      rw [hc] at hi ⊢
-      simp only [List.cons_append, dropSpaces, List.dropWhile_cons, beq_iff_eq, hne.1, if_false] at hi ⊢
-      split
-      · rename_i he; simp only [List.cons.injEq] at he; exact absurd he.1 hne.2
-      · rw [hi]; rfl
+    simpa [flowTxt, erase] using reads_flow_seq hv (fun hne => read_flow_items xs hne hv) fuel k rest
+      (by simpa [flowTxt] using hf) hr
+  | .tupleStruct xs, hv, fuel, k, rest, hf, hr => by
+    simp only [inFlowFrag] at hv
+    simpa [flowTxt, erase] using reads_flow_seq hv (fun hne => read_flow_items xs hne hv) fuel k rest
+      (by simpa [flowTxt] using hf) hr
   | .map known es, hv, fuel, k, rest, hf, hr => by
     simp only [inFlowFrag, Bool.and_eq_true, decide_eq_true_eq] at hv
-    obtain ⟨f', rfl⟩ : ∃ f', fuel = f' + 1 := ⟨fuel - 1, by omega⟩
-    simp only [flowTxt, erase, List.cons_append, List.append_assoc, List.singleton_append] at hf ⊢
-    rw [flowNode_open_map]
-    cases es with
-    | nil => simp [flowEntries, dropSpaces, eraseEntries]
-    | cons e es' =>
-      obtain ⟨kk, v⟩ := e
-      have hdup := hasDupKey_erase_flow ((kk, v) :: es') hv.1 hv.2
-      have hent := hv.1
-      cases kk <;> simp only [inFlowFragEntries, Bool.and_eq_true, Bool.false_and, Bool.false_eq_true, false_and] at hent
-      rename_i kt
-      obtain ⟨c, cs, rfl, hca, _, _⟩ := safe_cons hent.1.1
-      have hi := read_flow_entries ((SVal.str (c :: cs), v) :: es') (by simp) hv.1 f' 0 rest
-        (by simp only [flowEntries, keyOf, Option.getD_some, List.length_append, List.length_cons] at hf ⊢; omega)
-      simp only [flowEntries, keyOf, Option.getD_some, spaces, List.replicate_zero, List.nil_append, List.append_assoc,
-        List.cons_append] at hi ⊢
-      have hne : c ≠ ' ' ∧ c ≠ '}' :=
-        ⟨fun e => by rw [e] at hca; exact absurd hca (by decide), fun e => by rw [e] at hca; exact absurd hca (by decide)⟩
-      simp only [dropSpaces, List.dropWhile_cons, beq_iff_eq, hne.1, if_false]
-      split
-      · rename_i he; simp only [List.cons.injEq] at he; exact absurd he.1 hne.2
-      · rw [hi]; simp [hdup]
-  | .newtypeVariant _ _, hv, _, _, _, _, _ => by simp [inFlowFrag] at hv
-  | .tupleStruct _, hv, _, _, _, _, _ => by simp [inFlowFrag] at hv
-  | .tupleVariant _ _, hv, _, _, _, _, _ => by simp [inFlowFrag] at hv
-  | .structVariant _ _, hv, _, _, _, _, _ => by simp [inFlowFrag] at hv
+    simpa [flowTxt, erase] using reads_flow_map hv.1 hv.2 (fun hne => read_flow_entries es hne hv.1) fuel k rest
+      (by simpa [flowTxt] using hf) hr
+  | .newtypeVariant n v, hv, fuel, k, rest, hf, hr => by
+    simp only [inFlowFrag, Bool.and_eq_true] at hv
+    simpa [flowTxt, erase] using reads_flow_variant hv.1 (flowTxt_head v hv.2)
+      (fun fuel k rest hf hr => read_flow v hv.2 fuel k rest hf hr) fuel k rest (by simpa [flowTxt] using hf) hr
+  | .tupleVariant n xs, hv, fuel, k, rest, hf, hr => by
+    simp only [inFlowFrag, Bool.and_eq_true] at hv
+    simpa [flowTxt, erase] using reads_flow_variant hv.1 ⟨'[', _, rfl, Or.inr (Or.inl rfl)⟩
+      (reads_flow_seq hv.2 (fun hne => read_flow_items xs hne hv.2)) fuel k rest (by simpa [flowTxt] using hf) hr
+  | .structVariant n fs, hv, fuel, k, rest, hf, hr => by
+    simp only [inFlowFrag, Bool.and_eq_true, decide_eq_true_eq] at hv
+    simpa [flowTxt, erase] using reads_flow_variant hv.1 ⟨'{', _, rfl, Or.inr (Or.inr rfl)⟩
+      (reads_flow_map hv.2.1 hv.2.2 (fun hne => read_flow_entries fs hne hv.2.1)) fuel k rest
+      (by simpa [flowTxt] using hf) hr
   | .flowSeq _, hv, _, _, _, _, _ => by simp [inFlowFrag] at hv
   | .flowMap _, hv, _, _, _, _, _ => by simp [inFlowFrag] at hv
   | .commented _ _, hv, _, _, _, _, _ => by simp [inFlowFrag] at hv
@@ -440,6 +493,12 @@ end
 
 /-! ### characters of the flow text, the root -/
 
+theorem flowVariant_lay {n txt : List Char} (hn : isSafeStr n = true) (ht : AllLay txt) : AllLay (flowVariant n txt) := by
+  have h : AllLay (['{'] ++ (n ++ ([':', ' '] ++ (txt ++ ['}'])))) :=
+    AllLay.append (allLay_lit _ (by decide)) ((allLay_safe hn).append
+      (AllLay.append (allLay_lit _ (by decide)) (ht.append (allLay_lit ['}'] (by decide)))))
+  simpa [flowVariant] using h
+
 mutual
 theorem flowTxt_lay : ∀ (v : SVal), inFlowFrag v = true → AllLay (flowTxt v)
   | .unit, _ => allLay_lit _ (by decide)
@@ -465,10 +524,25 @@ theorem flowTxt_lay : ∀ (v : SVal), inFlowFrag v = true → AllLay (flowTxt v)
     simp only [flowTxt]
     exact AllLay.append (a := '{' :: flowEntries es) (AllLay.append (a := ['{']) (allLay_lit _ (by decide)) (flowEntries_lay es hv.1).1)
       (allLay_lit ['}'] (by decide))
-  | .newtypeVariant _ _, hv => by simp [inFlowFrag] at hv
-  | .tupleStruct _, hv => by simp [inFlowFrag] at hv
-  | .tupleVariant _ _, hv => by simp [inFlowFrag] at hv
-  | .structVariant _ _, hv => by simp [inFlowFrag] at hv
+  | .tupleStruct xs, hv => by
+    simp only [inFlowFrag] at hv
+    simp only [flowTxt]
+    exact AllLay.append (a := '[' :: flowItems xs) (AllLay.append (a := ['[']) (allLay_lit _ (by decide)) (flowItems_lay xs hv).1)
+      (allLay_lit [']'] (by decide))
+  | .newtypeVariant n v, hv => by
+    simp only [inFlowFrag, Bool.and_eq_true] at hv
+    simp only [flowTxt]
+    exact flowVariant_lay hv.1 (flowTxt_lay v hv.2)
+  | .tupleVariant n xs, hv => by
+    simp only [inFlowFrag, Bool.and_eq_true] at hv
+    simp only [flowTxt]
+    exact flowVariant_lay hv.1 (AllLay.append (a := '[' :: flowItems xs)
+      (AllLay.append (a := ['[']) (allLay_lit _ (by decide)) (flowItems_lay xs hv.2).1) (allLay_lit [']'] (by decide)))
+  | .structVariant n fs, hv => by
+    simp only [inFlowFrag, Bool.and_eq_true] at hv
+    simp only [flowTxt]
+    exact flowVariant_lay hv.1 (AllLay.append (a := '{' :: flowEntries fs)
+      (AllLay.append (a := ['{']) (allLay_lit _ (by decide)) (flowEntries_lay fs hv.2.1).1) (allLay_lit ['}'] (by decide)))
   | .flowSeq _, hv => by simp [inFlowFrag] at hv
   | .flowMap _, hv => by simp [inFlowFrag] at hv
   | .commented _ _, hv => by simp [inFlowFrag] at hv
@@ -524,51 +598,59 @@ variable {o : Opts} {f : ScalarFns}
 theorem serializeSeq_flow_root (ho : FragOpts o) :
     (serializeSeq o ({ pendingFlow := some .anySeq } : St)).1.flow = true ∧
     (serializeSeq o ({ pendingFlow := some .anySeq } : St)).1.first = true ∧
+    (serializeSeq o ({ pendingFlow := some .anySeq } : St)).1.restoreShift = none ∧
     (serializeSeq o ({ pendingFlow := some .anySeq } : St)).2.out = ['['] ∧
     Mid (serializeSeq o ({ pendingFlow := some .anySeq } : St)).2 ∧
+    (serializeSeq o ({ pendingFlow := some .anySeq } : St)).2.pendingSpaceAfterColon = false ∧
     (serializeSeq o ({ pendingFlow := some .anySeq } : St)).2.inFlow = 0 := by
   have := ho.yaml12
-  refine ⟨?_, ?_, ?_, ⟨?_, ?_, ?_⟩, ?_⟩ <;>
-    simp [serializeSeq, takeFlow, writeSpaceIfPending, indentIfLineStart, writeIndent, St.write, spaces, *]
+  refine ⟨?_, ?_, ?_, ?_, ⟨?_, ?_⟩, ?_, ?_⟩ <;>
+    simp [serializeSeq, takeFlow, writeSpaceIfPending, indentIfLineStart, writeIndent, indentCols, St.write, spaces, *]
 
 theorem serializeMap_flow_root (ho : FragOpts o) (len : Option Nat) :
     (serializeMap o len ({ pendingFlow := some .anyMap } : St)).1.flow = true ∧
     (serializeMap o len ({ pendingFlow := some .anyMap } : St)).1.first = true ∧
+    (serializeMap o len ({ pendingFlow := some .anyMap } : St)).1.restoreShift = none ∧
     (serializeMap o len ({ pendingFlow := some .anyMap } : St)).2.out = ['{'] ∧
     Mid (serializeMap o len ({ pendingFlow := some .anyMap } : St)).2 ∧
+    (serializeMap o len ({ pendingFlow := some .anyMap } : St)).2.pendingSpaceAfterColon = false ∧
     (serializeMap o len ({ pendingFlow := some .anyMap } : St)).2.inFlow = 0 := by
   have := ho.yaml12
-  refine ⟨?_, ?_, ?_, ⟨?_, ?_, ?_⟩, ?_⟩ <;>
-    simp [serializeMap, takeFlow, writeSpaceIfPending, indentIfLineStart, writeIndent, St.write, spaces, *]
+  refine ⟨?_, ?_, ?_, ?_, ⟨?_, ?_⟩, ?_, ?_⟩ <;>
+    simp [serializeMap, takeFlow, writeSpaceIfPending, indentIfLineStart, writeIndent, indentCols, St.write, spaces, *]
 
 /-- `FlowSeq(seq)` at the root: one line, the flow text -/
 theorem emit_flowSeq (ho : FragOpts o) (hf : SafeContract f) (xs : List SVal) (hv : inFlowFragList xs = true) :
     emit o f (.flowSeq (.seq xs)) = .ok (flowTxt (.seq xs) ++ ['\n']) := by
-  obtain ⟨hq1, hq2, hout1, hm1, hi1⟩ := serializeSeq_flow_root (o := o) ho
-  obtain ⟨q', s', he, hqf, hout, hm, hi⟩ := ser_flow_items ho hf xs hv _ (serializeSeq o _).1 hq1 hm1
+  obtain ⟨hq1, hq2, hq3, hout1, hm1, hp1, hi1⟩ := serializeSeq_flow_root (o := o) ho
+  obtain ⟨q', s', he, hqf, hqr, hout, hm, hp, hi⟩ := ser_flow_items ho hf xs hv _ (serializeSeq o _).1 hq1 hm1 hp1
   have h0 : (s'.inFlow == 0) = true := by rw [hi, hi1]; rfl
-  simp only [emit, ho.indent]
+  have hr : q'.restoreShift = none := by rw [hqr, hq3]
+  have hne : (o.indentStep == 0) = false := by have := ho.indent; simp; omega
+  simp only [emit, hne, Bool.false_eq_true, if_false]
   rw [ser]
   show (match ser o f (.seq xs) { pendingFlow := some .anySeq } with
         | Except.error e => Except.error e
         | Except.ok s => Except.ok s.out) = _
   rw [ser_seq, he]
-  simp [seqEnd, hqf, St.write, newline, h0, hout, hout1, hq2, flowTxt, List.append_assoc]
+  simp [seqEnd, hr, hqf, St.write, newline, h0, hout, hout1, hq2, flowTxt, List.append_assoc]
 
 /-- `FlowMap(map)` at the root -/
 theorem emit_flowMap (ho : FragOpts o) (hf : SafeContract f) (known : Bool) (es : List (SVal × SVal))
     (hv : inFlowFragEntries es = true) :
     emit o f (.flowMap (.map known es)) = .ok (flowTxt (.map known es) ++ ['\n']) := by
-  obtain ⟨hq1, hq2, hout1, hm1, hi1⟩ := serializeMap_flow_root (o := o) ho (if known then some es.length else none)
-  obtain ⟨m', s', he, hmf, hout, hm, hi⟩ := ser_flow_entries ho hf es hv _ (serializeMap o _ _).1 hq1 hm1
+  obtain ⟨hq1, hq2, hq3, hout1, hm1, hp1, hi1⟩ := serializeMap_flow_root (o := o) ho (if known then some es.length else none)
+  obtain ⟨m', s', he, hmf, hmr, hout, hm, hp, hi⟩ := ser_flow_entries ho hf es hv _ (serializeMap o _ _).1 hq1 hm1 hp1
   have h0 : (s'.inFlow == 0) = true := by rw [hi, hi1]; rfl
-  simp only [emit, ho.indent]
+  have hr : m'.restoreShift = none := by rw [hmr, hq3]
+  have hne : (o.indentStep == 0) = false := by have := ho.indent; simp; omega
+  simp only [emit, hne, Bool.false_eq_true, if_false]
   rw [ser]
   show (match ser o f (.map known es) { pendingFlow := some .anyMap } with
         | Except.error e => Except.error e
         | Except.ok s => Except.ok s.out) = _
   rw [ser_map, he]
-  simp [mapEnd, hmf, St.write, newline, h0, hout, hout1, hq2, flowTxt, List.append_assoc]
+  simp [mapEnd, hr, hmf, St.write, newline, h0, hout, hout1, hq2, flowTxt, List.append_assoc]
 
 end
 
